@@ -73,13 +73,13 @@ func Tree(e formula.Expression) any {
 	}
 	switch n := e.(type) {
 	case *formula.Identifier:
-		return T{"Id", n.Value}
+		return T{"Id", Esc(n.Value)}
 	case *formula.LiteralExpression:
 		switch n.Token {
 		case formula.SK_NumberLiteral:
-			return T{"Lit", "Num", n.Value}
+			return T{"Lit", "Num", LiteralNumber(n)}
 		case formula.SK_StringLiteral:
-			return T{"Lit", "Str", n.Value}
+			return T{"Lit", "Str", Esc(n.Value)}
 		default:
 			return T{"Lit", SpecKind(n.Token), kindName(n.Token)}
 		}
@@ -102,7 +102,7 @@ func Tree(e formula.Expression) any {
 	case *formula.SelectorExpression:
 		var name any = T{"NIL"}
 		if n.Name != nil {
-			name = n.Name.Value
+			name = Esc(n.Name.Value)
 		}
 		return T{"Sel", Tree(n.Expression), name, n.Assert}
 	case *formula.CallExpression:
@@ -121,4 +121,30 @@ func list(l *formula.NodeList[formula.Expression]) any {
 		out = append(out, Tree(l.At(i)))
 	}
 	return out
+}
+
+// Esc mirrors FChars.BytesToStr: printable ASCII other than '?' stands for itself,
+// every other byte is "?" + two lower-case hex digits.
+func Esc(v string) string {
+	clean := true
+	for i := 0; i < len(v); i++ {
+		if c := v[i]; c < 32 || c > 126 || c == '?' {
+			clean = false
+			break
+		}
+	}
+	if clean {
+		return v
+	}
+	const hex = "0123456789abcdef"
+	out := make([]byte, 0, len(v)*3)
+	for i := 0; i < len(v); i++ {
+		c := v[i]
+		if c >= 32 && c <= 126 && c != '?' {
+			out = append(out, c)
+		} else {
+			out = append(out, '?', hex[c>>4], hex[c&15])
+		}
+	}
+	return string(out)
 }
